@@ -305,7 +305,14 @@ class Check(PropertyCheck):
     level_note = ("PARTIAL (relative to library laws): chain building, signature and time checks are OpenSSL's — they enter the model as the Boolean chainOk and are "
                   "compared per case with cryptography's independent verifier, not proved; OpenSSL's host-name check is a hand transcription (Model/C15.lean "
                   "osslMatches) validated only by the handshake matrix; ipaddress/idna classification of the server name is a parameter of the model. "
-                  "fail_sends_no_appdata is relative to C14's tunnel model and its run-to-completion assumption (C04).")
+                  "fail_sends_no_appdata is relative to C14's tunnel model and its run-to-completion assumption (C04). "
+                  "ORACLE AUDIT — lenient branches, each exercised by known_selftest(): (a) outcome hookRaised (the hook built no connection object) is accepted only "
+                  "when the case's own server name is unusable (idna codec / OpenSSL's set1_host refuse it — asked of the libraries directly — or it is empty with "
+                  "verification on); then still: no application data, child told the error, connection closed; (b) with ssl_insecure on nothing about chain/name is "
+                  "demanded, but a failed handshake is rejected; (c) `nm` cases have no implementation side (they tie the Python transcription of `matches` to the "
+                  "Lean one); (d) the tie compares outcome and the SNI extension actually sent, nothing else. All expected values come from the case: chain validity "
+                  "from cryptography's verifier over the minted chain and the configured anchors, the name rule from the case's SAN list; no clause compares two "
+                  "outputs of the layer except the consistency check 'not both established and failed'.")
     technique = "Lean 4 proof (decision model + name-matching specification + refinement of the OpenSSL transcription) + translator (flag constants, AST facts) + real-handshake correspondence with an independent chain verifier"
     rule = ("hs: name set (22 shapes: matching, mismatched, wildcard, partial/second-label/double/TLD wildcards, CN-only, IP SAN, IP as dNSName, IDN, case, "
             "non-DNS SANs) x validity {ok, expired, not yet valid} x issuer {trusted root, other root, self-signed, intermediate with/without chain} x target "
@@ -357,7 +364,7 @@ class Check(PropertyCheck):
         return {"MitmVerif/Gen/C15.lean": "\n".join(L)}
 
     def setup(self, tier):
-        pki(); client_pki()
+        pki(); client_pki(); self.known_selftest()
 
     # ---- generator ----------------------------------------------------------------------------------------------
     def generate(self, rng, tier):
@@ -537,7 +544,43 @@ class Check(PropertyCheck):
             # "With ssl_insecure on, handshakes with such servers succeed."
             if insecure and obs["outcome"] == "failed": fails.append("handshake failed although ssl_insecure is on")
         if obs["established_and_failed"]: fails.append("both established and failed hooks fired")
+        # the hook may refuse to build a connection object only for the reasons the INPUT gives: no usable server name
+        # (the idna codec or OpenSSL rejects it) or no name at all while verification is on
+        if obs["outcome"] == "hookRaised" and not (cls is None and (eff != "" or not insecure)):
+            fails.append(f"tls_start_server raised / built nothing for the usable server name {eff!r}")
         return fails
+
+    def known_selftest(self):
+        """doctored observations just outside each lenient branch must be rejected (independent of the tree under test)"""
+        mk = lambda sni, trust, issuer="rootA", names="matching": {"op": "hs", "cert": {"sans": NAMESETS[names], "cn": None, "validity": "ok", "issuer": issuer},
+                                                                   "names": names, "client_sni": sni, "server_sni": None, "address": "10.0.0.1", "trust": trust}
+        est = {"outcome": "established", "hooks": ["tls_start_server", "tls_established_server"], "open_result": None, "conn_error": False, "closed": False,
+               "peer_plain": hx(SECRET), "peer_done": True, "sni_ext": hx(HOST.encode()), "tls_established": True, "chain_ok": True, "established_and_failed": False}
+        failed = dict(est, outcome="failed", hooks=["tls_start_server", "tls_failed_server"], open_result="error", conn_error=True, closed=True,
+                      peer_plain="-", tls_established=False)
+        raised = dict(failed, outcome="hookRaised", hooks=["tls_start_server", "raised:Error", "tls_failed_server"])
+        checks = [
+            (mk(HOST, "file"), est, False), (mk(HOST, "file"), failed, False),
+            (mk(HOST, "file", "rootB"), dict(est, chain_ok=False), True),                     # completes on an untrusted chain
+            (mk(HOST, "default-store"), est, True),                                          # root not among the configured anchors
+            (mk("foo.com", "file"), est, True),                                              # completes for a name the certificate lacks
+            (mk(HOST, "file", names="partial-wildcard-suffix"), est, True),
+            (mk(HOST, "file"), dict(est, peer_plain="-"), True),
+            (mk(HOST, "file"), dict(failed, hooks=["tls_start_server"]), True),              # failure hook missing
+            (mk(HOST, "file"), dict(failed, peer_plain=hx(SECRET)), True),                   # application data after a failure
+            (mk(HOST, "file"), dict(failed, open_result=None), True),
+            (mk(HOST, "file"), dict(failed, closed=False), True),
+            (mk(HOST, "insecure", "rootB"), dict(failed, chain_ok=False), True),             # ssl_insecure must succeed
+            # hookRaised is excused only when the INPUT has no usable server name
+            (mk("www.example.com.", "file"), raised, host_param_ok(b"www.example.com.")),
+            (mk(HOST, "file"), raised, True), (mk(HOST, "insecure"), raised, True),
+            (mk("a..b", "insecure"), raised, False),
+            (mk("a..b", "file"), dict(raised, peer_plain=hx(SECRET)), True),
+        ]
+        for c, o, want_fail in checks:
+            got = bool(self.oracle(c, o))
+            assert got == want_fail, f"C15 oracle selftest: expected {'a failure' if want_fail else 'no failure'} for {json.dumps(c)[:200]} / {json.dumps(o)[:200]}: {self.oracle(c, o)}"
+        assert py_match_dns(b"*.example.com", b"www.example.com") and not py_match_dns(b"*.example.com", b"a.b.example.com") and not py_match_dns(b"w*.example.com", b"www.example.com")
 
     # ---- model tie ----------------------------------------------------------------------------------------------
     def model_lines(self, case):
